@@ -399,7 +399,13 @@ func (t *tr) stmt(s ast.Stmt) []*cont {
 				if x.Tok == token.DEC {
 					d = -1
 				}
-				t.assign(id.Name, avInt{v.n + d})
+				// widening: a counter that is not the index of a statically bounded loop (an attempt
+				// counter of a retry loop) stops being tracked, so that the path states of the loop converge
+				if nv := v.n + d; nv > 16 || nv < -16 {
+					t.assign(id.Name, avUnknown{})
+				} else {
+					t.assign(id.Name, avInt{nv})
+				}
 			}
 		}
 		return one(t.cur)
